@@ -2,6 +2,8 @@
 
 from __future__ import annotations
 
+import asyncio
+
 from aiomysensors.gateway import Gateway
 from aiomysensors.model.message import Message
 
@@ -57,6 +59,8 @@ class Scenario:
         self.script = [f"1;255;3;0;{self.wt};0"] + [f"1;3;1;1;2;{e}" for e in cfg.get("echoes", [])]
         self.script_pos = 0
         self.fail_budget = cfg.get("faults", 0)
+        self.cancel_budget = cfg.get("cancels", 0)
+        self.step_task = None
         self.errors: list[str] = []
         self.nontrivial = False
         self.wake_delivered = False
@@ -70,13 +74,22 @@ class Scenario:
         agen = self.gw.listen()
         try:
             for _ in self.script:
+                # the application waits for the next message the way asyncio.wait_for does: the wait itself is a
+                # task that a timeout cancels, after which the application goes on listening
+                self.step_task = self.loop.create_task(agen.__anext__())
                 try:
-                    await agen.__anext__()
+                    await self.step_task
                 except TransportError:
                     # a flush write failed: reported to the caller of listen, who goes on listening
                     await agen.aclose()
                     agen = self.gw.listen()
+                except asyncio.CancelledError:
+                    if not self.step_task.cancelled():
+                        raise
+                    await agen.aclose()
+                    agen = self.gw.listen()
         finally:
+            self.step_task = None
             await agen.aclose()
 
     async def _sender(self, i: int):
@@ -91,6 +104,8 @@ class Scenario:
     # -- environment ----------------------------------------------------------
     def enabled(self) -> list:
         evs = []
+        # a write whose caller was cancelled is gone (its future is cancelled before the caller runs again)
+        self.t.pending_writes[:] = [e for e in self.t.pending_writes if not e[0].done()]
         if self.script_pos < len(self.script) and self.t.pending_read is not None:
             evs.append("wake" if self.script_pos == 0 else "echo")
         for i in range(len(self.t.pending_writes)):
@@ -100,6 +115,8 @@ class Scenario:
         for i in range(self.nsenders):
             if i not in self.sender_tasks:
                 evs.append(f"spawn:{i}")
+        if self.cancel_budget > 0 and self.t.pending_writes and self.step_task is not None and not self.step_task.done():
+            evs.append("timeout")  # the application's wait for the next message times out while a release write is in flight
         return evs
 
     def fire(self, label: str) -> None:
@@ -107,6 +124,10 @@ class Scenario:
             self.wake_delivered = True
             self.t.deliver(self.script[self.script_pos])
             self.script_pos += 1
+        elif label == "timeout":
+            self.cancel_budget -= 1
+            self.nontrivial = True
+            self.step_task.cancel()
         elif label.endswith(":fail"):
             self.fail_budget -= 1
             self.nontrivial = True
@@ -200,6 +221,9 @@ def configs(ctx: core.Ctx) -> list:
         {"parked": [A], "senders": [[A], [A]], "sender_acks": [1, 0]},
         {"parked": [A, B], "senders": [[A, B], [A]], "sender_acks": [1, 0]},
         {"parked": [], "senders": [[A], [A], [A]], "sender_acks": [0, 1, 0]},
+        # the application's wait for the next message is cancelled (a timeout) while a release write is in flight
+        {"parked": [A, B], "senders": [[C]], "cancels": 1},
+        {"parked": [A, I], "senders": [[A]], "cancels": 1},
         # an echo (ack flag set) of an earlier command for key A arrives after the wake
         {"parked": [A], "senders": [[A]], "echoes": ["p0"]},
         {"parked": [A, B], "senders": [[A], [B]], "echoes": ["s00", "p0"]},
@@ -225,7 +249,7 @@ def run(ctx: core.Ctx) -> core.Report:
         "evaluations": res["executions"],
         "distinct_nontrivial": res["nontrivial"],
         "distinct_outcomes": res["distinct_outcomes"],
-        "rule": "every execution is a distinct choice sequence (schedule) of the listener flushing a woken node's buffer and 1-3 application tasks calling send, transport writes suspended until the explorer completes them; all orders of environment events at quiescent points + at most K early firings; non-trivial = at least one send call started while a flush write was in flight",
+        "rule": "every execution is a distinct choice sequence (schedule) of the listener flushing a woken node's buffer and 1-3 application tasks calling send, transport writes suspended until the explorer completes them (ok, or failing, or abandoned because the application's wait for the next message timed out); all orders of environment events at quiescent points + at most K early firings; non-trivial = at least one send call started while a flush write was in flight",
         "exhaustive": True,
         "bounds": {"K_deviations": K if K < 99 else "unbounded: every schedule of the scenario", "configs": len(configs(ctx)), "max_choice_points": res["max_points"]},
         "samples": [res["sample"]],
